@@ -193,7 +193,7 @@ class Hooks:
         return [m for (pred, m) in self.post if pred(pc, tag, nxt, extra)]
 
 
-def machine(tag, prog, hooks, K, conds, E, s, marker_filter):
+def machine(tag, prog, hooks, K, conds, E, s, marker_filter, params=()):
     """unroll K steps of prog; returns final-state expressions.  marker_filter: None = ignore probe events,
     int m = record only P(m) events; obs events are always recorded."""
     n = prog.n
@@ -221,7 +221,9 @@ def machine(tag, prog, hooks, K, conds, E, s, marker_filter):
         if marker_filter is not None and m == marker_filter:
             emit(c, bv(m), guard)
 
-    st = dict(pc=bv(0), regs=[bv(0)] * R, loc=[bv(0)] * L, oi=bv(0), en=bv(0), ev=[bv(0)] * E, trap=z3.BoolVal(False), ret=bv(0))
+    L = max(L, len(params))
+    init_loc = [params[i] if i < len(params) else bv(0) for i in range(L)]
+    st = dict(pc=bv(0), regs=[bv(0)] * R, loc=init_loc, oi=bv(0), en=bv(0), ev=[bv(0)] * E, trap=z3.BoolVal(False), ret=bv(0))
     for m in hooks.init:
         emit_marker(st, m)
     for t in range(K):
@@ -310,7 +312,7 @@ def step_bound(prog):
     return min(2 * prog.n + 4, 72)
 
 
-def equivalent(impl, spec, hooks, marker_filter, OI=10, E=12, sel_range=None, timeout_ms=120000, compare_ret=False):
+def equivalent(impl, spec, hooks, marker_filter, OI=10, E=12, sel_range=None, timeout_ms=120000, compare_ret=False, nparams=0):
     """z3 query: is there an oracle stream on which IMPL and SPEC (with hooks) both terminate within their step
     bounds and their (filtered) event logs / termination kinds differ?
     -> ("unsat"|"sat"|"unknown", schedule or None, stats)"""
@@ -321,8 +323,11 @@ def equivalent(impl, spec, hooks, marker_filter, OI=10, E=12, sel_range=None, ti
     for c in conds:
         s.add(z3.ULE(c, hi))
     KA, KB = step_bound(impl), step_bound(spec)
-    A = machine("I", impl, None, KA, conds, E, s, marker_filter)
-    B = machine("S", spec, hooks, KB, conds, E, s, marker_filter)
+    params = [z3.BitVec("p%d" % j, W) for j in range(nparams)]
+    for pv in params:
+        s.add(z3.ULE(pv, 0x3FF))     # function arguments: symbolic, kept below the event tag bits
+    A = machine("I", impl, None, KA, conds, E, s, marker_filter, params)
+    B = machine("S", spec, hooks, KB, conds, E, s, marker_filter, params)
     diff = [A["en"] != B["en"], A["trap"] != B["trap"]]
     diff += [z3.And(z3.ULT(bv(e), A["en"]), A["ev"][e] != B["ev"][e]) for e in range(E)]
     if compare_ret:
@@ -333,6 +338,8 @@ def equivalent(impl, spec, hooks, marker_filter, OI=10, E=12, sel_range=None, ti
     if r == z3.sat:
         m = s.model()
         sched = [m.eval(c, model_completion=True).as_long() for c in conds]
+        if params:
+            sched = {"conds": sched, "params": [m.eval(pv, model_completion=True).as_long() for pv in params]}
     return str(r), sched, {"K_impl": KA, "K_spec": KB, "OI": OI, "E": E}
 
 
